@@ -88,7 +88,10 @@ RefOfText(raw) ==
 
 \* RDATA octets (RFC 1035 3.3, 3.4.1), names completed with the current origin, uncompressed
 RdataWire(type, rd, origin) ==
-  CASE type = tA -> IF Len(rd.ip) = 4 THEN [st |-> "ok", w |-> rd.ip] ELSE [st |-> "err", w |-> <<>>]
+  \* pref = -1 marks RDATA given as octets (rd.ip), for any type: the "follow" family puts a record of every RR type the
+  \* library knows into a zone; what its text denotes as RDATA is C01 / C05's business, not the zone grammar's
+  CASE rd.pref = -1 -> [st |-> "ok", w |-> rd.ip]
+    [] type = tA -> IF Len(rd.ip) = 4 THEN [st |-> "ok", w |-> rd.ip] ELSE [st |-> "err", w |-> <<>>]
     [] type \in {tNS, tCNAME} -> LET c == Complete(rd.nm, origin) IN [st |-> c.st, w |-> IF c.st = "ok" THEN EncName(c.n) ELSE <<>>]
     [] type = tMX -> LET c == Complete(rd.nm, origin) IN
                      IF rd.pref < 0 \/ rd.pref > 65535 THEN [st |-> "err", w |-> <<>>]
